@@ -8,7 +8,7 @@
     10  model set_val (real)     fmt r o raw arr vd              -> codes, flags, read-back values
 *)
 From Coq Require Import ZArith List Bool.
-From FxpVerif Require Import Spec SpecArith NP Store Status Convert Arith Div Wire.
+From FxpVerif Require Import Spec SpecArith NP Store Status Convert Arith Div Conv Wire.
 Import ListNotations.
 Open Scope Z_scope.
 
@@ -110,5 +110,20 @@ Definition dispatch (req : list Z) : list Z :=
                    let dd := match d with 0 => DTrue | 1 => DFloor | _ => DMod end in
                    let fz := div_fmt dd fx fy in
                    eoutcome (ewres fz) (if m =? 0 then div_raw dd fx cxs fy cys fz r o else div_repr dd fx cxs fy cys fz r o)) t
+  (* 50: the six comparisons of (fx, cx) with (fy, cy) and with a number; 51: conversions of (f, c);
+     52: scaled store of values; 53: scaled read and limits *)
+  | 50 :: t => run (fx <- dfmt ;; cx <- dZ ;; fy <- dfmt ;; cy <- dZ ;; y <- df64 ;; dret (fx, cx, fy, cy, y))
+                (fun '(fx, cx, fy, cy, y) =>
+                   flat_map (fun c => ebool (fxp_cmp c fx cx fy cy)) [CLt; CLe; CEq; CNe; CGt; CGe]
+                   ++ flat_map (fun c => ebool (fxp_cmp_num c fx cx y)) [CLt; CLe; CEq; CNe; CGt; CGe]
+                   ++ flat_map (fun c => ebool (dy_cmpop c (val_of_code fx cx) (val_of_code fy cy))) [CLt; CLe; CEq; CNe; CGt; CGe]) t
+  | 51 :: t => run (f <- dfmt ;; c <- dZ ;; dret (f, c))
+                (fun '(f, c) => ef64 (get_val_f64 f c) ++ (match astype_int f c with Some z => [0; z] | None => [2; 0] end)
+                                ++ ebool (fxp_bool f c) ++ [uraw f c; dy_floor (val_of_code f c); c mod 2^(nw f)]) t
+  | 52 :: t => run (f <- dfmt ;; r <- drmode ;; o <- domode ;; s <- df64 ;; b <- df64 ;; vs <- dlist df64 ;; dret (f, r, o, s, b, vs))
+                (fun '(f, r, o, s, b, vs) => eoutcome (fun w => ewres f w ++ elist (fun c => ef64 (read_scaled f s b c)) (w_codes w))
+                                                      (store_scaled f r o s b vs)) t
+  | 53 :: t => run (f <- dfmt ;; s <- df64 ;; b <- df64 ;; dret (f, s, b))
+                (fun '(f, s, b) => let '(u, l, p) := scaled_limits f s b in ef64 u ++ ef64 l ++ ef64 p) t
   | _ => bad_request
   end.
